@@ -28,6 +28,8 @@ def run(ctx):
     c_no_module_state(ctx)
     a_single_evaluation(ctx)
     a_reserved_names(ctx)
+    a_arguments_bound_once(ctx)
+    b_return_presence(ctx)
 
 
 def _fstring_dollar(e):
@@ -440,3 +442,98 @@ def c_context(ctx):
         if isinstance(a, ast.AnnAssign) and src(a.target) in ("context", "arguments"):
             ok = ok and a.value is not None and "default_factory" in src(a.value)
     ctx.check("C08.c.fresh", FLOWS, "FlowState", "fresh containers", ok, "FlowState.context and .arguments use default_factory (a fresh dict per instance, not a shared default)", line=cls.lineno)
+
+
+def a_arguments_bound_once(ctx):
+    """FlowState.arguments records what the CALLER bound: it is what FlowStarted/Finished report, what the activation match compares, and what start_event()
+    copies into the StartFlow event that restarts an activated flow.  It is written where the parameters are bound (_start_flow) and nowhere else; in particular
+    a local `$param = ...` inside the flow body changes the instance's context, not the recorded binding - otherwise the next instance starts with its
+    predecessor's locals."""
+    sm = ctx.tree.ast(SM)
+    writes = []
+    for fn in functions(sm):
+        for n in walk_no_nested(fn):
+            tgt = None
+            if isinstance(n, (ast.Assign, ast.AugAssign)):
+                for t in (n.targets if isinstance(n, ast.Assign) else [n.target]):
+                    if isinstance(t, ast.Subscript) and isinstance(t.value, ast.Attribute) and t.value.attr == "arguments":
+                        tgt = t.value
+                    elif isinstance(t, ast.Attribute) and t.attr == "arguments":
+                        tgt = t
+            elif isinstance(n, ast.Delete):
+                for t in n.targets:
+                    if isinstance(t, ast.Subscript) and isinstance(t.value, ast.Attribute) and t.value.attr == "arguments":
+                        tgt = t.value
+            elif isinstance(n, ast.Call) and isinstance(n.func, ast.Attribute) and n.func.attr in ("update", "pop", "clear", "setdefault", "popitem") \
+                    and isinstance(n.func.value, ast.Attribute) and n.func.value.attr == "arguments":
+                tgt = n.func.value
+            if tgt is None:
+                continue
+            owner = src(tgt.value)
+            # events carry `arguments` too; this rule is about flow instances
+            if re.search(r"event|spec\b|\.spec|action", owner):
+                continue
+            writes.append((fn, n, owner))
+    def fresh(fn, owner):
+        # the instance is created in this very function: writing its arguments IS the binding step
+        return any(isinstance(a, ast.Assign) and any(isinstance(t, ast.Name) and t.id == owner for t in a.targets) and isinstance(a.value, ast.Call)
+                   and src(a.value.func) in ("FlowState", "create_flow_instance") for a in walk_no_nested(fn))
+    binders = [w for w in writes if fresh(w[0], w[2])]
+    ctx.floor("C08.a.arguments-bound-once", SM, "binding stores on a freshly created instance", len(binders), 2)
+    for fn, n, owner in writes:
+        ok = fresh(fn, owner)
+        ctx.check("C08.a.arguments-bound-once", SM, qualname(fn), first_line(n, 70), ok,
+                  "the recorded binding is written by the function that creates the instance" if ok else
+                  "`%s` changes the recorded arguments of an existing instance outside the binding step: start_event() copies FlowState.arguments into the StartFlow event that restarts an "
+                  "activated flow, so a local assignment in one instance becomes the argument of the next" % first_line(n, 60), line=n.lineno)
+
+
+def b_return_presence(ctx):
+    """`return <expr>`: the interpreter decides whether there IS an expression by testing the stored field.  The parser stores source text, so the test must be about
+    presence (`is not None`) or the stored value must always be text: a pre-evaluated `0` / `False` would be skipped by a truthiness test and the caller receives None."""
+    tr = ctx.tree.ast(TR)
+    rs = None
+    for f in functions(tr):
+        if f.name == "_return_stmt":
+            rs = f
+    sm = ctx.tree.ast(SM)
+    sl = find_function(sm, "slide")
+    if rs is None or sl is None:
+        raise AnalysisError("_return_stmt / slide not found", anchor=TR + "::_return_stmt")
+    cons = [c for c in walk_no_nested(rs) if isinstance(c, ast.Call) and src(c.func) == "Return"]
+    ctx.floor("C08.b.return-presence", TR, "Return(...) constructions in _return_stmt", len(cons), 1)
+    # how the consumer tests for presence
+    tests = []
+    for n in ast.walk(sl):
+        if isinstance(n, ast.If) and isinstance(n.test, ast.Attribute) and n.test.attr == "expression" and any(
+                isinstance(p, ast.If) and "Return" in src(p.test) for p in _anc(n, sl)):
+            tests.append(n)
+    truthiness = bool(tests)
+    from ..source import inline_temporaries
+    for c in cons:
+        kw = [k.value for k in c.keywords if k.arg == "expression"]
+        if not kw:
+            continue
+        v = inline_temporaries(kw[0], rs, c.lineno) if isinstance(kw[0], ast.Name) else kw[0]
+        # text: a constant string, or a (nested) subscript of the parse tree children; anything that went through an evaluator/conversion is not text
+        defs = [v]
+        if isinstance(kw[0], ast.Name):
+            defs = [a.value for a in walk_no_nested(rs) if isinstance(a, ast.Assign) and any(isinstance(t, ast.Name) and t.id == kw[0].id for t in a.targets)]
+        def is_text(e):
+            if isinstance(e, ast.Constant):
+                return e.value is None or isinstance(e.value, str)
+            if isinstance(e, ast.Subscript):
+                return True
+            if isinstance(e, ast.Call) and isinstance(e.func, ast.Attribute) and e.func.attr in ("strip", "lstrip", "rstrip", "join", "format", "replace"):
+                return True
+            if isinstance(e, ast.Call) and src(e.func) == "str":
+                return True
+            if isinstance(e, ast.JoinedStr):
+                return True
+            return False
+        text = all(is_text(d) for d in defs)
+        ok = text or not truthiness
+        ctx.check("C08.b.return-presence", TR, qualname(rs), first_line(c, 60), ok,
+                  "the stored return expression is always source text (or None), so the interpreter's presence test cannot skip a value" if ok else
+                  "the stored return expression can be a pre-evaluated value (%s) while slide() tests `if element.expression:` - `return 0` / `return False` are skipped and the "
+                  "caller receives None" % ", ".join(first_line(d, 40) for d in defs if not is_text(d)), line=c.lineno)
